@@ -1,8 +1,15 @@
-"""G-EXPR for C03: JSON-serialisable expression models, their renderer to `ast` nodes, Hypothesis strategies,
-a parenthesis spy on CPython's unparser, and the construction-time steering pass for listed findings.
+"""G-EXPR for C03: JSON-serialisable expression models, their renderer to `ast` nodes, a deterministic model builder
+driven by a Hypothesis-drawn choice sequence, a parenthesis spy on CPython's unparser, and the construction-time
+steering pass for listed findings.
 
 Model = nested dicts {"t": <kind>, ...}; only dicts/lists/strs/ints/bools/None, so cases shrink and replay.
 Text is always `ast.unparse(to_ast(model))`: CPython decides where parentheses, spaces and markers go.
+
+Feature switches (Builder(sw=...), steer(sw=...)): "no-<Kind>" drops a node class from the builder ("no-Starred",
+"no-Slice", "no-GenExp", "no-JoinedStr", ...); sub-shapes: "no-dict-unpack", "no-call-doublestar", "no-async-comp",
+"no-nonfinite" (1e400), "safe-strings", "fstring-plain" (literal text over [ab c] and plain {name} fields);
+context-dependent shapes are rewritten after building by steer(): "no-operand-parens" (no operand that CPython
+parenthesises because of operator precedence), "no-int-receiver" (`1 .real`).
 
 Kinds (fields):
   Name id | Const k v (k in int float complex str bytes bool None Ellipsis; numbers as literal source text) |
@@ -19,6 +26,8 @@ from __future__ import annotations
 
 import ast
 import copy
+import warnings
+
 from hypothesis import strategies as st
 
 # ----------------------------------------------------------------------------- vocabulary
@@ -51,6 +60,9 @@ LITERAL_FORMS = {
     "other-List": ("from typing import List as L", "L", False),
     "other-module-Literal": ("from other import Literal", "Literal", None),  # undetermined by the property text
 }
+
+
+warnings.filterwarnings("ignore", category=SyntaxWarning)  # generated strings hold arbitrary escapes
 
 
 class ModelError(Exception):
@@ -156,6 +168,12 @@ def _to_ast(m, lit):
     if t == "Name":
         return ast.Name(m["id"], L)
     if t == "Const":
+        if _EXPAND_CODE and m["k"] == "str":
+            # a plain string that happens to be code is parsed by Griffe like any string annotation
+            try:
+                return compile(m["v"], "<string>", "eval", flags=ast.PyCF_ONLY_AST).body
+            except (SyntaxError, ValueError):
+                pass
         return ast.Constant(_const_value(m))
     if t == "Code":
         if _EXPAND_CODE and m.get("e") is not None:
